@@ -84,6 +84,9 @@ class TableBundle:
                     mm = re.search(r"^\s*\*\*(\S+)\s*", cell0)
                     if mm:
                         name = mm.group(1)
+                        if name.endswith("*"):
+                            # transposed-table marker is not part of the table name
+                            name = name[:-1]
                     else:
                         raise NotImplementedError(
                             f"TableBundle: unable to extract table name from "
